@@ -182,8 +182,12 @@ type obs struct {
 // results and well-formed diagnostics; it returns the first observation and
 // whether there is one (false after a panic or a nil result).
 func (r *runner) stage(name string, call func() obs) (obs, bool) {
-	var o [2]obs
-	for i := range o {
+	// Two calls; six when the input is rejected (diagnostic texts are where
+	// map-iteration-order dependence shows, and a difference must show up
+	// reliably so that the verdict itself is reproducible).
+	var o [6]obs
+	calls := 2
+	for i := 0; i < calls; i++ {
 		i := i
 		if c := protect(func() { o[i] = call() }); c != nil {
 			r.failf("c15.panic.parse."+name+"@"+c.frame, "%s panicked: %v [%s]", name, c.val, c.frames)
@@ -193,12 +197,19 @@ func (r *runner) stage(name string, call func() obs) (obs, bool) {
 			r.fails = append(r.fails, *o[i].fail)
 			return obs{}, false
 		}
+		if i == 0 && o[0].diags.HasErrors() {
+			calls = len(o)
+		}
 	}
-	if o[0].dump != o[1].dump {
-		r.failf("c15.nondeterministic.result."+name, "%s returned different results for the same bytes:\n%s\n--- vs ---\n%s", name, o[0].dump, o[1].dump)
-	}
-	if d0, d1 := diagDump(o[0].diags, false), diagDump(o[1].diags, false); d0 != d1 {
-		r.failf("c15.nondeterministic.diags."+name, "%s returned different diagnostics for the same bytes:\n%s\n--- vs ---\n%s", name, d0, d1)
+	for i := 1; i < calls; i++ {
+		if o[0].dump != o[i].dump {
+			r.failf("c15.nondeterministic.result."+name, "%s returned different results for the same bytes:\n%s\n--- vs ---\n%s", name, o[0].dump, o[i].dump)
+			break
+		}
+		if d0, d1 := diagDump(o[0].diags, false), diagDump(o[i].diags, false); d0 != d1 {
+			r.failf("c15.nondeterministic.diags."+name, "%s returned different diagnostics for the same bytes:\n%s\n--- vs ---\n%s", name, d0, d1)
+			break
+		}
 	}
 	r.checkDiags(name, o[0].diags)
 	// signature: outcome of this entry point
